@@ -388,9 +388,16 @@ pub fn filter_atom(pair: Pair<Rule>) -> Parsed<FilterAtom> {
                 }
             }
 
-            test_expr
-                .map(|expr| FilterAtom::test(expr, not))
-                .ok_or("Logical expression is absent".into())
+            match test_expr {
+                Some(Test::Function(tf)) if tf.is_comparable() => {
+                    Err(JsonPathError::InvalidJsonPath(format!(
+                        "The result of the function {} must be compared",
+                        tf
+                    )))
+                }
+                Some(expr) => Ok(FilterAtom::test(expr, not)),
+                None => Err("Logical expression is absent".into()),
+            }
         }
         _ => Err(rule.into()),
     }
